@@ -643,7 +643,9 @@ def run(tier: str, seed: int, replay: str | None = None) -> int:
             info = {"config": impl_config(cfg), "impl": r, "reason": "reported literals differ from the documented rule", **small}
             relevant = [FLAGS[i] for i in range(len(FLAGS)) if not cand[1 + i]]
             if cand[0] and ideal_ok and not relevant:
-                relevant = LANG_FLAGS[lang]
+                # several open defects compensate one another on this input (no single flag changes the output, switching all
+                # off does): attribute to the language's flags that are still listed as known, never to a repaired one
+                relevant = [k for k in LANG_FLAGS[lang] if k in chk.known["known"]]
             if cand[0] and ideal_ok and relevant:
                 for k in relevant:
                     chk.known_finding(k, {"lang": f["lang"], "name": f["name"], "text": case["text"], "config": impl_config(cfg), "impl": r})
